@@ -113,6 +113,17 @@ func main() {
 				fmt.Println(p.pos(lr.pos), fnKey(lr.fn), lr.expr, lr.ok, lr.how)
 			}
 		}
+	case "debug-lru":
+		p := loadResolve("", true)
+		for _, f := range p.Funcs {
+			if strings.Contains(f.String(), "lru") && strings.Contains(f.Name(), "Add") {
+				o := "-"
+				if f.Origin() != nil {
+					o = f.Origin().String()
+				}
+				fmt.Println(f.String(), "| name:", f.Name(), "| pkg nil:", f.Pkg == nil, "| origin:", o, "| blocks:", len(f.Blocks))
+			}
+		}
 	case "debug-sign":
 		if len(os.Args) > 2 {
 			repoRoot = os.Args[2]
